@@ -42,6 +42,13 @@ func genPair(r *PRNG, tier, prop string, o pairOpts) *Scenario {
 	nl := o.links
 	if nl <= 0 {
 		nl = 1
+		if r.Chance(1, 10) {
+			nl = r.Range(2, 3) // several connections in one process (they share the deflate pools)
+		}
+	}
+	long := r.Chance(1, 15) && !slow // a long history of small messages on one connection
+	if long {
+		scn.Class = "pair-faultfree-long-history"
 	}
 	grand := 0
 	var closers []*WOp
@@ -101,11 +108,21 @@ func genPair(r *PRNG, tier, prop string, o pairOpts) *Scenario {
 		if slow {
 			maxMsgs = 5
 		}
+		if long {
+			maxMsgs = r.Range(100, 400)
+		}
 		prog := func(w int, readerStyle string, isClient bool) []WOp {
 			n := r.Range(1, maxMsgs)
+			if long {
+				n = maxMsgs
+			}
 			var ops []WOp
 			for i := 0; i < n; i++ {
 				op := genWriteOp(r, effW(w), big, np)
+				if long && op.Pay.Len > 64 {
+					op.Pay.Len = r.Range(0, 64)
+					fixChunks(&op)
+				}
 				if o.prepMore && np > 0 && r.Chance(1, 2) {
 					op = WOp{Kind: "prep", PM: r.Intn(np)}
 				}
